@@ -35,6 +35,19 @@ func (sm *seatManager) RandomAssignSeats(playerIDs []string) error {
 	sm.mu.Lock()
 	defer sm.mu.Unlock()
 
+	// players can be seated only once
+	occupiedSeatIDs := sm.getOccupiedPlayerSeatIDs()
+	newPlayerIDs := make(map[string]bool)
+	for _, playerID := range playerIDs {
+		if _, exist := occupiedSeatIDs[playerID]; exist {
+			return ErrDuplicatePlayers
+		}
+		if _, exist := newPlayerIDs[playerID]; exist {
+			return ErrDuplicatePlayers
+		}
+		newPlayerIDs[playerID] = true
+	}
+
 	seatIDs, err := sm.randomSeatIDs(len(playerIDs))
 	if err != nil {
 		sm.printState(1, func(tag int) {
